@@ -13,14 +13,28 @@
                    the data — for every k+m ≤ 65536, not only ≤ 32;
   `parity_words`   the parity payloads encode produces are, word by word on host-order
                    (little-endian) 16-bit words, Σ_j G[r][j]·data_j[w].
-  Executed on every run, for all 496 shapes with k+m ≤ 32 (exhaustive, reported as execution,
-  not as a kernel theorem, see DESIGN §5.2): the library's `make_systematic_matrix`, the model's
-  transliteration `makeSys` and this closed form agree entry by entry; the library's log/antilog
-  tables (all 65 536 + 196 605 entries) and `rs_galois_mult/div` agree with the model's tables
-  and with `gmul`.  Any other matrix — even another invertible one — fails that comparison, which
-  is what makes parity bytes stable across builds and versions.
+  `table_mult`, `table_div`
+                   the log/antilog tables built like `rs_galois_init_tables` (65 535 successive
+                   doublings) multiply and divide exactly like the shift-and-add field product:
+                   `rs_galois_mult x y = x·y`, `rs_galois_div x y = x·y⁻¹`, division by zero = −1
+                   (structural proof over the table-building loop: the generator 2 has order
+                   65535, so log/antilog are mutually inverse bijections — no table is evaluated);
+  `algorithm_closed_form`
+                   the *algorithm* `make_systematic_matrix` (Vandermonde matrix on points
+                   0..k+m-1, column reduction to systematic form with the table arithmetic,
+                   normalisation of the first parity row), transliterated step by step as
+                   `makeSys`, terminates without ever taking its row-swap or failure exits and
+                   returns exactly the closed-form generator — for every k ≥ 1 and k+m ≤ 65536.
+  Executed on every run, for all 496 shapes with k+m ≤ 32 (the tie between the model and the C
+  code): the library's `make_systematic_matrix`, the model's `makeSys` and the closed form agree
+  entry by entry; the library's log/antilog tables (all 65 536 + 196 605 entries) and
+  `rs_galois_mult/div` agree with the model's tables and with `gmul`.  Any other matrix — even
+  another invertible one — fails that comparison, which is what makes parity bytes stable across
+  builds and versions.
 -/
 import LecProofs.RSBackend
+import LecProofs.GFTables
+import LecProofs.MakeSys
 import LecGen
 namespace LecProps.C04
 open Lec Finset
@@ -39,6 +53,33 @@ theorem first_parity_all_ones {k : Nat} (j : Nat) (hk : k < 65536) : genEntry k 
 
 theorem entries_in_field {k m r j : Nat} (hkm : k + m ≤ 65536) (hr : r < k + m) : genEntry k r j < 2 ^ 16 :=
   genEntry_lt hkm hr
+
+/-- `rs_galois_mult` over the tables = the field product. -/
+theorem table_mult {x y : Nat} (hx : x < 2 ^ 16) (hy : y < 2 ^ 16) : tmul x y = gmul x y :=
+  tmul_eq_gmul hx hy
+
+/-- `rs_galois_div` over the tables = product with the inverse; `none` (C: -1) exactly for a
+    non-zero numerator over zero. -/
+theorem table_div {x y : Nat} (hx : x < 2 ^ 16) (hy : y < 2 ^ 16) :
+    tdiv x y = if x = 0 then some 0 else if y = 0 then none else some (gmul x (ginv y)) := by
+  by_cases h0 : x = 0
+  · subst h0; simp [tdiv_zero_left]
+  · by_cases hy0 : y = 0
+    · subst hy0; simp [h0, tdiv_zero x h0]
+    · simp [h0, hy0, tdiv_eq hx hy hy0]
+
+theorem tables_ok : TablesOK :=
+  ⟨fun _ _ hx hy => tmul_eq_gmul hx hy, fun _ _ hx hy h0 => tdiv_eq hx hy h0⟩
+
+/-- `make_systematic_matrix(k, m)` returns the closed-form generator, row-major. -/
+theorem algorithm_closed_form {k m : Nat} (hk : 1 ≤ k) (hn : k + m ≤ 65536) :
+    makeSys k m = some (Array.ofFn (n := (k + m) * k) fun i => genEntry k (i.val / k) (i.val % k)) :=
+  makeSys_eq_ofFn tables_ok hk hn
+
+theorem algorithm_entries {k m : Nat} (hk : 1 ≤ k) (hn : k + m ≤ 65536) :
+    ∃ a, makeSys k m = some a ∧ a.size = (k + m) * k ∧
+      ∀ r < k + m, ∀ j < k, a[r * k + j]! = genEntry k r j :=
+  makeSys_eq_genEntry tables_ok hk hn
 
 /-- any k distinct rows of the (k+m) × k generator are linearly independent. -/
 theorem mds {k m : Nat} (hkm : k + m ≤ 65536) (S : Fin k → Nat) (hinj : Function.Injective S)
@@ -66,6 +107,9 @@ example : (List.range 4).map (genEntry 4 4) = [1, 1, 1, 1] ∧
   decide +kernel
 
 #print axioms closed_form
+#print axioms table_mult
+#print axioms table_div
+#print axioms algorithm_closed_form
 #print axioms first_parity_all_ones
 #print axioms mds
 #print axioms parity_words
